@@ -59,3 +59,191 @@ Proof.
   intros c now timeout l f. split;
     [apply TcpSocketsProofs.recv_tcp_sockets_list_no_fault|apply TcpSocketsProofs.recv_tcp_sockets_list_length].
 Qed.
+
+(* ==================================================================================================================
+   Second part: WHICH values come back, what is inside the bounds at every accessor of the receive path given the
+   size check that precedes it, where the pieces handed from one layer to the next lie, and the array of pending TCP
+   probe sockets over whole histories.
+   ================================================================================================================== *)
+From TV Require Import Proofs.RecvOutcomes Proofs.ViewsExtra.
+
+(* ---- the complete list of outcomes ---- *)
+
+(* IPv4 raw socket: for EVERY datagram (any length, any content) and every configuration the result is a value
+   (a response or nothing) or the one error value InsufficientPacketBuffer - no other error, no fault. *)
+Theorem c04_recv4_value_or_packet_error : forall c now bytes,
+  (exists r, recv4 c now bytes = Ok r) \/ recv4 c now bytes = Err EPacket.
+Proof. intros c now bytes. apply ep_cases. apply ep_recv4. Qed.
+
+(* ICMPv6 socket: with a sender address the same two outcomes; without one (recv_from reported none) the error
+   value is InsufficientPacketBuffer for a message shorter than the ICMP header and MissingAddr otherwise. *)
+Theorem c04_recv6_outcomes : forall c now from b, bytes b -> from_v6 from ->
+  match from with
+  | Some _ => (exists r, recv6 c now from b = Ok r) \/ recv6 c now from b = Err EPacket
+  | None => recv6 c now from b = Err (if zlen (ztake MAX_PACKET_SIZE b) <? 8 then EPacket else EMissingAddr)
+  end.
+Proof.
+  intros c now from b Hb Hf. pose proof (recv6_outcomes c now from b Hb Hf) as H.
+  destruct from; [apply ep_cases; exact H|exact H].
+Qed.
+
+(* Network::recv_probe, every protocol, every state of the TCP probe sockets, every socket result: a value, or one of
+   InsufficientPacketBuffer / MissingAddr / an I/O error of the socket - nothing else. *)
+Theorem c04_recv_probe_error_values : forall c now found rd, readable_ok rd ->
+  match recv_probe c now found rd with
+  | Ok _ => True
+  | Err e => e = EPacket \/ e = EMissingAddr \/ exists k, e = EIo k
+  | Fault _ => False
+  end.
+Proof. exact recv_probe_outcome. Qed.
+
+(* Oversized: a datagram longer than the 1024-octet receive buffer is handled exactly as its first 1024 octets. *)
+Theorem c04_oversized_datagram : forall c now from b,
+  recv4 c now b = recv4 c now (ztake MAX_PACKET_SIZE b) /\
+  recv6 c now from b = recv6 c now from (ztake MAX_PACKET_SIZE b).
+Proof. intros. split; [apply recv4_oversized|apply recv6_oversized]. Qed.
+
+(* Truncated: fewer than 20 octets on the IPv4 socket, fewer than 8 on the ICMPv6 socket: the error value. *)
+Theorem c04_truncated_datagram : forall c now from b,
+  (zlen b < 20 -> recv4 c now b = Err EPacket) /\ (zlen b < 8 -> recv6 c now from b = Err EPacket).
+Proof. intros. split; [apply recv4_truncated|apply recv6_truncated]. Qed.
+
+(* Hostile nested headers: for EVERY quoted datagram of at least the minimum header size - any IHL, any protocol
+   number, any UDP / payload length fields, any truncation behind the header - and every configuration, extracting
+   the probe it quotes gives a value or InsufficientPacketBuffer. *)
+Theorem c04_nested_header_total : forall c n,
+  (20 <= zlen n -> (exists r, extract_probe_proto_resp4 c n = Ok r) \/ extract_probe_proto_resp4 c n = Err EPacket) /\
+  (bytes n -> 40 <= zlen n ->
+   (exists r, extract_probe_proto_resp6 c n = Ok r) \/ extract_probe_proto_resp6 c n = Err EPacket).
+Proof.
+  intros c n. split.
+  - intro H. apply ep_cases. apply ep_extract_probe_proto_resp4. exact H.
+  - intros Hb H. apply ep_cases. apply ep_extract_probe_proto_resp6; assumption.
+Qed.
+
+Example c04_outcomes_example :
+  let c := {| rc_src := [10;0;0;1]; rc_dest := [10;0;0;2]; rc_proto := Udp; rc_privileged := true; rc_ext := true; rc_pattern := 0 |} in
+  (* 19 octets *)
+  recv4 c 0 (repeat 69 19) = Err EPacket /\
+  (* an ICMP type the tracer does not handle *)
+  recv4 c 0 ([69;0;0;28; 0;0;0;0; 64;1;0;0; 10;0;0;9; 10;0;0;1] ++ [8;0;0;0; 0;0;0;0]) = Ok None /\
+  (* Time Exceeded quoting 19 octets: the nested view is refused *)
+  recv4 c 0 ([69;0;0;47; 0;0;0;0; 64;1;0;0; 10;0;0;9; 10;0;0;1] ++ [11;0;0;0; 0;0;0;0] ++ repeat 69 19) = Err EPacket /\
+  (* Time Exceeded quoting a UDP datagram whose length field says 3 *)
+  (exists r, recv4 c 0 ([69;0;0;56; 0;0;0;0; 64;1;0;0; 10;0;0;9; 10;0;0;1] ++ [11;0;0;0; 0;0;0;0] ++
+                        [69;0;0;31; 0;7;0;0; 1;17;0;0; 10;0;0;1; 10;0;0;2] ++ [128;0; 130;155; 0;3; 0;0]) = Ok (Some r)) /\
+  recv6 c 0 None (repeat 0 8) = Err EMissingAddr /\ recv6 c 0 None (repeat 0 7) = Err EPacket.
+Proof. vm_compute. repeat split; try reflexivity. eexists; reflexivity. Qed.
+
+(* ---- where the pieces lie ---- *)
+
+(* extension_splitter::split as the receive path calls it: for EVERY length value (zero, negative, not a multiple of
+   the word, beyond the payload) and EVERY payload it returns a value; the datagram part is a prefix of the payload,
+   the extension part (if any) is the suffix from some octet c >= 128 on, at or after the end of the datagram part,
+   with at least the 4-octet header inside the payload. *)
+Theorem c04_split_total_and_inside : forall len p, exists n e,
+  split len p = Ok (ztake n p, e) /\ 0 <= n <= zlen p /\
+  match e with
+  | None => True
+  | Some x => exists c, n <= c /\ 128 <= c /\ c + 4 <= zlen p /\ x = skipn (Z.to_nat c) p
+  end.
+Proof. exact split_within_net. Qed.
+
+(* The extension object iterator of the receive path: for EVERY buffer and start offset (fuel = one more than the
+   octets left) it returns; every object it yields starts inside the buffer with at least a header, its length
+   field is between 4 and what is left (so payload() and the conversion stay inside), and 4 * count <= octets left. *)
+Theorem c04_objects_bounded_inside : forall b f off, 0 <= off -> Z.max 0 (zlen b - off) < Z.of_nat f ->
+  exists obs, objects f b off = Ok obs /\ Forall obj_bounded obs /\
+              4 * zlen obs <= Z.max 0 (zlen b - off) /\ Forall (inside_from b off) obs.
+Proof. exact objects_spec_full. Qed.
+
+(* the label stack iterator of the receive path: returns, at most (octets left) / 4 entries, each decoded to the six
+   values label(3) / exp / bos / ttl *)
+Theorem c04_label_entries_bounded : forall b f off bos, 0 <= off -> Z.max 0 (zlen b - off) < Z.of_nat f ->
+  exists ms, mpls_members f b off bos = Ok ms /\ 4 * zlen ms <= Z.max 0 (zlen b - off) /\
+             Forall (fun m => length m = 6%nat) ms.
+Proof. exact mpls_members_full. Qed.
+
+(* ---- every accessor of the receive path is inside the buffer given the new_view size check before it ---- *)
+
+(* Ipv4Packet (outer header and quoted header alike; every IHL 0..15) *)
+Theorem c04_ipv4_view_in_bounds : forall b, 20 <= zlen b ->
+  okv (ipv4_get_header_length b) /\ okv (ipv4_options_length b) /\ okv (Recv4.ipv4_payload b) /\ okv (ipv4_get_tos b) /\
+  okv (ipv4_get_protocol b) /\ okv (ipv4_get_identification b) /\ okv (ipv4_get_source b) /\ okv (ipv4_get_destination b).
+Proof. exact ipv4_view_accessors_ok. Qed.
+
+(* IcmpPacket / TimeExceededPacket / DestinationUnreachablePacket / EchoReplyPacket of both families: type, code,
+   identifier, sequence, payload_raw(), payload(), extension() for every value of the length octet *)
+Theorem c04_icmp_view_in_bounds : forall pk, 8 <= zlen pk ->
+  okv (read 0 pk) /\ okv (read 1 pk) /\ okv (get_u16 4 pk) /\ okv (get_u16 6 pk) /\
+  okv (err_payload_raw pk) /\ okv (err_payload_raw6 pk) /\
+  okv (err_payload4 pk) /\ okv (err_extension4 pk) /\ okv (err_payload6 pk) /\ okv (err_extension6 pk).
+Proof. exact icmp_view_accessors_ok. Qed.
+
+(* Ipv6Packet (the quoted header): every payload length field *)
+Theorem c04_ipv6_view_in_bounds : forall b, bytes b -> 40 <= zlen b ->
+  okv (ipv6_get_payload_length b) /\ okv (ipv6_get_next_header b) /\ okv (ipv6_get_traffic_class b) /\
+  okv (ipv6_get_destination_address b) /\ okv (ipv6_payload b).
+Proof. exact ipv6_view_accessors_ok. Qed.
+
+(* UdpPacket / EchoRequestPacket (8 octets), and the first 8 octets of TcpPacket: ports, length, checksum, payload() *)
+Theorem c04_transport_view_in_bounds : forall u, 8 <= zlen u ->
+  okv (get_u16 0 u) /\ okv (get_u16 2 u) /\ okv (get_u16 4 u) /\ okv (get_u16 6 u) /\ okv (zslice_from 8 u).
+Proof. exact transport_view_accessors_ok. Qed.
+
+(* ExtensionsPacket / ExtensionHeaderPacket (4 octets): header(), the version nibble, objects(); and
+   ExtensionObjectPacket on every object the iterator yields: length, class, subtype, payload(), and its conversion
+   (a value or InsufficientPacketBuffer - the latter for an MPLS object without room for one entry) *)
+Theorem c04_extension_views_in_bounds : forall v,
+  (4 <= zlen v ->
+   okv (zslice 0 4 v) /\ okv (read 0 v) /\ exists obs, objects (S (length v)) v 4 = Ok obs /\ Forall obj_bounded obs) /\
+  (obj_bounded v ->
+   okv (get_u16 0 v) /\ okv (read 2 v) /\ okv (read 3 v) /\ okv (zslice 4 (nth 0 v 0 * 256 + nth 1 v 0) v) /\
+   ((exists e, object_enc v = Ok e) \/ object_enc v = Err EPacket)).
+Proof.
+  intro v. split.
+  - apply extension_view_accessors_ok.
+  - intro H. destruct (object_view_accessors_ok v H) as (H1 & H2 & H3 & H4 & H5).
+    repeat split; try assumption. apply ep_cases. exact H5.
+Qed.
+
+(* The size check is what protects the accessors: below the minimum size some accessor of every packet view faults
+   (the Rust code would panic) - except the label stack view, whose only accessor never faults on any buffer. *)
+Theorem c04_size_check_is_needed :
+  (forall v, v <> VMplsLabelStack ->
+     exists r f, In r (view_accessors v []) /\ r = Fault f /\ (length (@nil Z) < view_min v)%nat) /\
+  (forall buf r f, In r (view_accessors VMplsLabelStack buf) -> r <> Fault f).
+Proof. split; [exact size_check_needed|exact label_stack_view_never_faults]. Qed.
+
+Example c04_in_bounds_example :
+  let b := 79 :: repeat 255 19 in
+  20 <= zlen b /\ Recv4.ipv4_payload b = Ok [] /\ ipv4_get_source b = Ok [255; 255; 255; 255] /\
+  obj_bounded [0; 6; 1; 1; 7; 7] /\ object_enc [0; 6; 1; 1; 7; 7] = Err EPacket /\
+  split (-5) (repeat 1 200) = Ok (repeat 1 128, Some (repeat 1 72)).
+Proof. vm_compute. repeat split; try reflexivity; discriminate. Qed.
+
+(* ---- the array of pending TCP probe sockets, whole histories ---- *)
+
+(* Start with at most 256 pending sockets and let ANY sequence of events happen - a probe dispatched (push), the
+   kernel changing what is known about any socket, recv_probe polling the array with any clock value and timeout:
+   the array never exceeds its 256 entries and every operation returns a value or one of InsufficientCapacity /
+   MissingAddr / an I/O error - never a fault (ArrayVec::push does not panic, no index is out of range). *)
+Theorem c04_tcp_socket_array_history : forall ops l, (length l <= TcpSockets.MAX_TCP_PROBES)%nat ->
+  (length (fst (tcp_run l ops)) <= TcpSockets.MAX_TCP_PROBES)%nat /\ Forall tcp_result_ok (snd (tcp_run l ops)).
+Proof. exact tcp_run_inv. Qed.
+
+(* a full array refuses the next probe with the error value and is left as it was *)
+Theorem c04_tcp_dispatch_when_full : forall l e, length l = TcpSockets.MAX_TCP_PROBES ->
+  tcp_step l (OpDispatch e) = (l, Err EInsufficientCapacity).
+Proof. exact tcp_dispatch_full. Qed.
+
+Example c04_tcp_history_example :
+  let c := {| rc_src := [10;0;0;1]; rc_dest := [10;0;0;2]; rc_proto := Tcp; rc_privileged := true; rc_ext := false; rc_pattern := 0 |} in
+  let e := {| TcpSockets.te_state := TcpSockets.SockPending; TcpSockets.te_sp := 33000; TcpSockets.te_dp := 80; TcpSockets.te_start := 0 |} in
+  let refused x := {| TcpSockets.te_state := TcpSockets.SockReady TcpConnRefused; TcpSockets.te_sp := TcpSockets.te_sp x;
+                      TcpSockets.te_dp := TcpSockets.te_dp x; TcpSockets.te_start := TcpSockets.te_start x |} in
+  (* 257 dispatches: the last is refused; then the sockets settle and one poll takes one entry out *)
+  let '(l, rs) := tcp_run [] (repeat (OpDispatch e) 257 ++ [OpSettle refused; OpPoll c 5 1000]) in
+  length l = 255%nat /\ nth 256 rs (Ok None) = Err EInsufficientCapacity /\
+  nth 258 rs (Ok None) = Ok (Some (RTcpRefused {| r_recv := 5; r_addr := [10;0;0;2]; r_proto := PTcp [10;0;0;2] 33000 80 None |})).
+Proof. vm_compute. repeat split; reflexivity. Qed.
